@@ -352,5 +352,8 @@ def run(model, rep, tier):
     shortcuts.check(model, rep, 'R09.8', 'sample:_offsets', param='pointsseq', why='a total that equals count x first says nothing about the individual point counts: offsets of a non-uniform sequence would be wrong')
     if nte < 4:
         raise AnalysisError(f'R09.8: only {nte} take_elements returns found')
+    rep.rule('R09.9', 'every name loaded in sample.py, points.py, pointsseq.py and element.py resolves (symtable)')
+    from rules import names as _names
+    _names.check(model, rep, 'R09.9', ('sample', 'points', 'pointsseq', 'element'), 300)
     rep.require('R09.1', 20)
     rep.require('R09.2', 5)
